@@ -392,11 +392,16 @@ func ovalDoc(kind string, platform string, as []adv) []byte {
 		for _, p := range pl {
 			pls.WriteString("<platform>" + xmlEsc(p) + "</platform>")
 		}
+		// several packages: nested criteria, as the vendors' documents have them
 		for _, o := range a.before {
-			fmt.Fprintf(&cris, `<criterion comment="c" test_ref="oval:verif:tst:%d"/>`, len(tests))
+			fmt.Fprintf(&cris, `<criteria operator="AND"><criterion comment="c" test_ref="oval:verif:tst:%d"/></criteria>`, len(tests))
 			tests = append(tests, tst{name: o.pkg, fixed: o.fixed})
 		}
-		fmt.Fprintf(&cris, `<criterion comment="c" test_ref="oval:verif:tst:%d"/>`, len(tests))
+		if len(a.before) > 0 {
+			fmt.Fprintf(&cris, `<criteria operator="AND"><criteria operator="OR"><criterion comment="c" test_ref="oval:verif:tst:%d"/></criteria></criteria>`, len(tests))
+		} else {
+			fmt.Fprintf(&cris, `<criterion comment="c" test_ref="oval:verif:tst:%d"/>`, len(tests))
+		}
 		tests = append(tests, tst{name: a.pkg, fixed: a.fixed, open: a.open, viaVar: a.viaVar})
 		op := "AND"
 		if len(a.before) > 0 {
